@@ -269,6 +269,7 @@ class Check:
         self.extra = {}
         self.assumptions = []
         self.exhaustive = False
+        self.is_replay = False
 
     def add_tlc(self, r):
         self.states += r.distinct
@@ -348,7 +349,9 @@ class Check:
             "known_findings_seen": sorted(seen_known),
         }
         os.makedirs(EVID, exist_ok=True)
-        with open(os.path.join(EVID, self.pid + ".json"), "w") as f:
+        # a replay does not describe a run of the check: keep the evidence of the last real run
+        target = os.path.join(EVID, "replay", self.pid + ".last-replay.json") if self.is_replay else os.path.join(EVID, self.pid + ".json")
+        with open(target, "w") as f:
             json.dump(ev, f, indent=1)
         log("%s %s: %d evaluations, %d states, %d violations (%d known signatures) in %.1fs" % (
             self.pid, self.tier, self.evaluations, self.states, len(unknown), len(seen_known),
